@@ -1,4 +1,4 @@
-import QuantemModel.Lemmas.Norm
+import QuantemModel.Lemmas.NormQuantile
 /-!
 C20 — display normalisation is a monotone map into [0, 1] with invertible stretches.
 
@@ -331,6 +331,207 @@ theorem centered_limits_ordered (vc : ℝ) (half : Option ℝ) (data : List (Ext
           exact le_max_of_le_left (abs_nonneg _)
         linarith
 
+/-- the modelled NumPy linear-interpolation quantile limits are ordered whenever
+`lower_quantile ≤ upper_quantile`, and lie between the min and the max of the finite pixels -/
+theorem quantile_limits_ordered (lowerQ upperQ : ℝ) (data : List (Ext ℝ)) (a b : ℝ) (hq : lowerQ ≤ upperQ)
+    (h : quantileLimits lowerQ upperQ data = .ok (a, b)) :
+    a ≤ b ∧ ∀ m M, minL (finiteVals data) = some m → maxL (finiteVals data) = some M → m ≤ a ∧ b ≤ M := by
+  unfold quantileLimits at h
+  simp only at h
+  split at h
+  · cases h
+  · split at h
+    · cases h
+    · rename_i hq01 hne
+      simp only [Except.ok.injEq, Prod.mk.injEq] at h
+      obtain ⟨rfl, rfl⟩ := h
+      set s := (finiteVals data).mergeSort (fun a b => Num.leb a b) with hsdef
+      have hs : s.Pairwise (· ≤ ·) := sortedFinite_pairwise _
+      have hlen : 0 < s.length := by
+        cases hs' : s with
+        | nil => rw [hs'] at hne; simp at hne
+        | cons x t => simp
+      have hN : (0 : ℝ) ≤ ((s.length - 1 : Nat) : ℝ) := Nat.cast_nonneg _
+      rw [quantileSorted_eq, quantileSorted_eq]
+      refine ⟨quantAt_mono hs hlen (mul_le_mul_of_nonneg_left hq hN), ?_⟩
+      intro m M hm hM
+      have h0 : s.getD 0 0 ∈ finiteVals data := List.mem_mergeSort.mp (getD_mem s 0 hlen)
+      have hl : s.getD (s.length - 1) 0 ∈ finiteVals data :=
+        List.mem_mergeSort.mp (getD_mem s (s.length - 1) (by omega))
+      exact ⟨le_trans (minL_le hm _ h0) (quantAt_bounds hs hlen _).1,
+             le_trans (quantAt_bounds hs hlen _).2 (le_maxL hM _ hl)⟩
+
+/-- configurations whose limits are "lower ≤ upper" by construction: quantiles in order,
+non-negative half range, automatic manual limits, explicit limits in order, a half-specified
+manual limit that does not lie beyond all the data -/
+def IntervalOK : Interval ℝ → List (Ext ℝ) → Prop
+  | .quantile lo hi, _ => lo ≤ hi
+  | .centered _ half, _ => ∀ h, half = some h → 0 ≤ h
+  | .manual none none, _ => True
+  | .manual (some a) (some b), _ => a ≤ b
+  | .manual (some a) none, d => ∃ x, Ext.fin x ∈ d ∧ a ≤ x
+  | .manual none (some b), d => ∃ x, Ext.fin x ∈ d ∧ x ≤ b
+
+/-- every interval type, frozen or lazy: the limits `get_limits` computes from the argument are ordered -/
+theorem getLimits_ordered (i : Interval ℝ) (d : List (Ext ℝ)) (lo hi : ℝ) (hok : IntervalOK i d)
+    (h : i.getLimits d = .ok (lo, hi)) : lo ≤ hi := by
+  cases i with
+  | quantile a b => exact (quantile_limits_ordered a b d lo hi hok h).1
+  | centered c half => exact centered_limits_ordered c half d lo hi hok h
+  | manual a b =>
+    cases a with
+    | none =>
+      cases b with
+      | none =>
+        simp only [Interval.getLimits] at h
+        cases hf : finiteVals d with
+        | nil => simp [manualLimits, hf, minL, orValueError, bind, Except.bind] at h
+        | cons x t =>
+          have hx : ∃ y, Ext.fin y ∈ d := by
+            have : x ∈ finiteVals d := by rw [hf]; simp
+            clear h hok hf
+            induction d with
+            | nil => simp [finiteVals] at this
+            | cons e r ih =>
+              cases e with
+              | fin y => exact ⟨y, by simp⟩
+              | nan => simp only [finiteVals] at this; obtain ⟨y, hy⟩ := ih this; exact ⟨y, by simp [hy]⟩
+              | negInf => simp only [finiteVals] at this; obtain ⟨y, hy⟩ := ih this; exact ⟨y, by simp [hy]⟩
+              | posInf => simp only [finiteVals] at this; obtain ⟨y, hy⟩ := ih this; exact ⟨y, by simp [hy]⟩
+          obtain ⟨y, hy⟩ := hx
+          have := (manual_auto_limits_ordered d lo hi h).1 y hy
+          linarith
+      | some b =>
+        obtain ⟨x, hx, hxb⟩ := hok
+        simp only [Interval.getLimits, manualLimits, bind, Except.bind, pure, Except.pure] at h
+        cases hm : minL (finiteVals d) with
+        | none => rw [hm] at h; simp [orValueError] at h
+        | some m =>
+          rw [hm] at h
+          simp only [orValueError, Except.ok.injEq, Prod.mk.injEq] at h
+          obtain ⟨rfl, rfl⟩ := h
+          exact le_trans (minL_le hm x (mem_finiteVals hx)) hxb
+    | some a =>
+      cases b with
+      | none =>
+        obtain ⟨x, hx, hax⟩ := hok
+        simp only [Interval.getLimits, manualLimits, bind, Except.bind, pure, Except.pure] at h
+        cases hM : maxL (finiteVals d) with
+        | none => rw [hM] at h; simp [orValueError] at h
+        | some M =>
+          rw [hM] at h
+          simp only [orValueError, Except.ok.injEq, Prod.mk.injEq] at h
+          obtain ⟨rfl, rfl⟩ := h
+          exact le_trans hax (le_maxL hM x (mem_finiteVals hx))
+      | some b =>
+        simp only [Interval.getLimits, manualLimits, Except.ok.injEq, Prod.mk.injEq] at h
+        obtain ⟨rfl, rfl⟩ := h
+        exact hok
+
+/-- `CustomNormalization.__call__` in either mode (limits frozen by `_set_limits` or recomputed from
+the argument — "lazy"), any interval type: NaN pixels masked, finite pixels to numbers in [0, 1],
+non-decreasing in the data value -/
+theorem norm_call_spec (n : Norm.Norm ℝ) (hadm : Admissible n.stretch) (data : List (Ext ℝ))
+    (out : List (Option ℝ)) (hok : IntervalOK n.interval data) (h : n.call data = .ok out) :
+    ∃ lo hi, lo ≤ hi ∧ out = data.map (normPixel n.stretch lo hi) ∧
+      normPixel n.stretch lo hi .nan = none ∧
+      (∀ x, ∃ y, normPixel n.stretch lo hi (.fin x) = some y ∧ 0 ≤ y ∧ y ≤ 1) ∧
+      (∀ x x' y y', x ≤ x' → normPixel n.stretch lo hi (.fin x) = some y →
+        normPixel n.stretch lo hi (.fin x') = some y' → y ≤ y') := by
+  obtain ⟨lo, hi, hl, hout⟩ := norm_call_pointwise n data out h
+  have hle := getLimits_ordered n.interval data lo hi hok hl
+  exact ⟨lo, hi, hle, hout, norm_nan_masked _ _ _, fun x => norm_finite_range _ hadm lo hi x,
+    fun x x' y y' hx hy hy' => norm_mono _ hadm hle hx hy hy'⟩
+
+/-! ## 5. `CustomNormalization.inverse` -/
+
+/-- the declared inverse of an admissible stretch is admissible -/
+theorem admissible_inverse (s : Stretch ℝ) (h : Admissible s) : Admissible s.inverse := by
+  cases s with
+  | linear t =>
+    obtain ⟨h1, h2⟩ := h
+    simp [Stretch.inverse, Admissible, LinearStretch.inverse, h1, h2]
+  | power t => simpa [Stretch.inverse, Admissible, PowerLawStretch.inverse] using h
+  | log t => simpa [Stretch.inverse, Admissible, LogarithmicStretch.inverse] using h
+  | invlog t => simpa [Stretch.inverse, Admissible, InverseLogarithmicStretch.inverse] using h
+  | asinh t =>
+    have := arsinh_inv_pos (a := t.a) h
+    simpa [Stretch.inverse, Admissible, InverseHyperbolicSineStretch.inverse] using this
+  | sinh t =>
+    have := sinh_inv_pos (a := t.a) h
+    simpa [Stretch.inverse, Admissible, HyperbolicSineStretch.inverse] using this
+
+/-- declaring the inverse twice gives the stretch back -/
+theorem inverse_inverse (s : Stretch ℝ) (h : Admissible s) : s.inverse.inverse = s := by
+  cases s with
+  | linear t =>
+    obtain ⟨h1, h2⟩ := h
+    cases t
+    simp_all [Stretch.inverse, LinearStretch.inverse]
+  | power t => cases t; simp [Stretch.inverse, PowerLawStretch.inverse]
+  | log t => cases t; simp [Stretch.inverse, LogarithmicStretch.inverse, InverseLogarithmicStretch.inverse]
+  | invlog t => cases t; simp [Stretch.inverse, LogarithmicStretch.inverse, InverseLogarithmicStretch.inverse]
+  | asinh t =>
+    cases t
+    simp [Stretch.inverse, InverseHyperbolicSineStretch.inverse, HyperbolicSineStretch.inverse, Real.sinh_arsinh]
+  | sinh t =>
+    cases t
+    simp [Stretch.inverse, InverseHyperbolicSineStretch.inverse, HyperbolicSineStretch.inverse, Real.arsinh_sinh]
+
+/-- hence the declared inverse is a two-sided inverse on [0, 1] -/
+theorem stretch_inverse_left (s : Stretch ℝ) (h : Admissible s) (u : ℝ) (h0 : 0 ≤ u) (h1 : u ≤ 1) :
+    s.inverse.call (s.call u) = u := by
+  have := (stretch_law s.inverse (admissible_inverse s h)).inverse_pair u h0 h1
+  rwa [inverse_inverse s h] at this
+
+/-- `CustomNormalization.inverse` after `_set_limits` (frozen limits): element-wise
+`stretch.inverse(y) * (vmax - vmin) + vmin` -/
+theorem norm_inverse_frozen (n : Norm.Norm ℝ) (lo hi : ℝ) (hi' : n.interval = .manual (some lo) (some hi))
+    (hadm : Admissible n.stretch) (ys : List ℝ) :
+    n.inverse ys = .ok (ys.map fun y => intervalInverse lo hi (n.stretch.inverse.call y)) := by
+  have hv : n.stretch.inverse.valid = true := by
+    have ha := admissible_inverse _ hadm
+    cases hs : n.stretch.inverse with
+    | linear t => simp [Stretch.valid, LinearStretch.valid]
+    | power t => rw [hs] at ha; simpa [Stretch.valid, PowerLawStretch.valid, leb_false_iff, Admissible] using ha
+    | log t => rw [hs] at ha; simpa [Stretch.valid, LogarithmicStretch.valid, leb_false_iff, Admissible] using ha
+    | invlog t => rw [hs] at ha; simpa [Stretch.valid, InverseLogarithmicStretch.valid, leb_false_iff, Admissible] using ha
+    | asinh t => rw [hs] at ha; simpa [Stretch.valid, InverseHyperbolicSineStretch.valid, leb_false_iff, Admissible] using ha
+    | sinh t => rw [hs] at ha; simpa [Stretch.valid, HyperbolicSineStretch.valid, leb_false_iff, Admissible] using ha
+  unfold Norm.inverse
+  simp [hv, hi', Interval.getLimits, manualLimits, List.map_map, Function.comp_def, bind, Except.bind, pure, Except.pure]
+
+/-- inverse ∘ forward is the identity on the clipped range `[vmin, vmax]`, and forward ∘ inverse is
+the identity on [0, 1] (what a colorbar relies on) -/
+theorem norm_inverse_roundtrip (s : Stretch ℝ) (h : Admissible s) {lo hi : ℝ} (hl : lo < hi) :
+    (∀ x, lo ≤ x → x ≤ hi → intervalInverse lo hi (s.inverse.call (s.call (intervalFin lo hi x))) = x) ∧
+    (∀ y, 0 ≤ y → y ≤ 1 → s.call (intervalFin lo hi (intervalInverse lo hi (s.inverse.call y))) = y) := by
+  have hr : 0 < hi - lo := sub_pos.mpr hl
+  have hfin : ∀ x, lo ≤ x → x ≤ hi → intervalFin lo hi x = (x - lo) / (hi - lo) := by
+    intro x h0 h1
+    rw [intervalFin_eq, if_pos hr.ne']
+    exact clip01_of_mem (div_nonneg (by linarith) hr.le) ((div_le_one hr).mpr (by linarith))
+  constructor
+  · intro x h0 h1
+    have hm := intervalFin_mem lo hi x
+    rw [stretch_inverse_left s h _ hm.1 hm.2, hfin x h0 h1]
+    simp only [intervalInverse, NumReal.mul_eq, NumReal.sub_eq, NumReal.add_eq]
+    field_simp
+    ring
+  · intro y h0 h1
+    obtain ⟨hu0, hu1⟩ := (stretch_law s.inverse (admissible_inverse s h)).maps_unit y h0 h1
+    have hx0 : lo ≤ intervalInverse lo hi (s.inverse.call y) := by
+      simp only [intervalInverse, NumReal.mul_eq, NumReal.sub_eq, NumReal.add_eq]; nlinarith
+    have hx1 : intervalInverse lo hi (s.inverse.call y) ≤ hi := by
+      simp only [intervalInverse, NumReal.mul_eq, NumReal.sub_eq, NumReal.add_eq]; nlinarith
+    rw [hfin _ hx0 hx1]
+    have : (intervalInverse lo hi (s.inverse.call y) - lo) / (hi - lo) = s.inverse.call y := by
+      simp only [intervalInverse, NumReal.mul_eq, NumReal.sub_eq, NumReal.add_eq]
+      field_simp
+      ring
+    rw [this]
+    exact (stretch_law s h).inverse_pair y h0 h1
+
 /-- all ten named presets are accepted by the constructor and hold an admissible stretch, so
 4.a–d apply to each of them -/
 theorem presets_admissible :
@@ -363,6 +564,12 @@ example : ∃ lo hi : ℝ, manualLimits none none [.nan, .fin 3, .posInf, .fin (
     obtain ⟨lo, hi⟩ := p
     refine ⟨lo, hi, rfl, ?_⟩
     exact (manual_auto_limits_ordered _ lo hi h).2 (-2) 3 (by simp) (by simp) (by norm_num)
+/-- the default quantile interval (0.02, 0.98) and an automatic centered interval satisfy `IntervalOK` -/
+example : IntervalOK (.quantile (1 / 50) (49 / 50)) [.fin 1, .nan, .fin 2] := by
+  simp only [IntervalOK]; norm_num
+example : IntervalOK (.centered 0 none) [.fin 1, .nan, .fin 2] := by simp [IntervalOK]
+/-- a half-specified manual limit of exactly 0 inside the data range -/
+example : IntervalOK (.manual (some 0) none) [.fin (-1), .nan, .fin 2] := ⟨2, by simp, by norm_num⟩
 /-- the default configuration constructs -/
 example : ∃ n, Norm.init (Config.default : Config ℝ) = .ok n :=
   (presets_admissible ("quantile", Config.default) (by simp [presets])).imp fun _ h => h.1
